@@ -3,12 +3,14 @@
 package main
 
 import (
+	"context"
 	"fmt"
 	"math/rand"
 	"os"
 	"path/filepath"
 	"runtime"
 	"sort"
+	"sync"
 	"time"
 
 	"reduction.dev/reduction/dkv/recovery"
@@ -28,6 +30,7 @@ type flavour struct {
 	manySenders  bool
 	reRegister   bool // re-register identical timers many times
 	bigNamespace bool
+	concurrent   bool // checkpoints with senders parked in alignment (C02)
 }
 
 type scriptEnv struct {
@@ -59,6 +62,10 @@ type scriptEnv struct {
 	blocked   map[string]bool // senders that already sent their barrier of the checkpoint in progress
 	tuning    vhook.TuningValues
 	redeploys int
+	hookMu    sync.Mutex
+	parked    map[string]chan struct{} // sender -> closed when it parked in alignment
+	released  map[string]int
+	ackShadow map[string]ophar.KeyShadow // handler shadow at the instant of the last acknowledgement
 }
 
 func (e *scriptEnv) logOp(format string, a ...any) {
@@ -144,6 +151,9 @@ func newScriptEnv(c *lib.Ctx, fl flavour) *scriptEnv {
 	e.h = ophar.NewHandler("h")
 	e.h.TimerProg = timerProgFor(c.Seed + int64(c.Index))
 	e.job = &ophar.JobRec{Handler: func(string) *ophar.Handler { return e.h }}
+	// the ack is sent from the operator's single event loop: everything the handler returned before is
+	// inside the checkpoint, nothing after (M4): freeze the shadow at that instant
+	e.job.OnAck = func(ophar.Ack) { e.ackShadow = e.h.ShadowSnapshot(nil) }
 	e.model = ophar.NewModel(e.senders, e.maxSize, e.hasDelay, e.h.TimerProg)
 	e.model.Observe = func(pos int) *ophar.Ev {
 		for _, c := range e.h.Calls(0) {
@@ -156,6 +166,26 @@ func newScriptEnv(c *lib.Ctx, fl flavour) *scriptEnv {
 		return nil
 	}
 	e.opID = "op-a"
+	e.parked = map[string]chan struct{}{}
+	e.released = map[string]int{}
+	if fl.concurrent {
+		vhook.Set(func(name string, arg any) {
+			s, _ := arg.(string)
+			switch name {
+			case "operator.align.parked":
+				e.hookMu.Lock()
+				if ch := e.parked[s]; ch != nil {
+					close(ch)
+					delete(e.parked, s)
+				}
+				e.hookMu.Unlock()
+			case "operator.align.released":
+				e.hookMu.Lock()
+				e.released[s]++
+				e.hookMu.Unlock()
+			}
+		})
+	}
 	e.startNode(nil)
 	return e
 }
@@ -176,6 +206,7 @@ func (e *scriptEnv) close() {
 		e.node.Kill()
 	}
 	vhook.SetTuning(nil)
+	vhook.Set(nil)
 	runtime.KeepAlive(e.pinned)
 }
 
@@ -420,7 +451,7 @@ func (e *scriptEnv) stepCheckpoint() {
 	if a.HandlerCalls != len(e.model.Batches) {
 		e.c.Fail("cut-position", e.wit(), "checkpoint %d was acknowledged after %d handler invocations, the barrier cut is after %d", id, a.HandlerCalls, len(e.model.Batches))
 	}
-	e.cutShadow = e.h.ShadowSnapshot(nil)
+	e.cutShadow = e.ackShadow
 	e.cutTimers = e.model.TimersSnapshot()
 	e.c.Feat("checkpoints", 1)
 	e.verifyCheckpoint(a)
@@ -529,7 +560,11 @@ func (e *scriptEnv) run(nsteps int) {
 		case x < 60+fl.watermarks+8:
 			e.stepTimeout()
 		case x < 60+fl.watermarks+8+6:
-			e.stepCheckpoint()
+			if fl.concurrent && e.r.Intn(5) > 0 {
+				e.stepCheckpointConcurrent()
+			} else {
+				e.stepCheckpoint()
+			}
 		case x < 60+fl.watermarks+8+6+3:
 			e.stepRedeploy()
 		default:
@@ -565,4 +600,125 @@ func (e *scriptEnv) touchAllKeys() {
 		e.sync()
 	}
 	e.stepCheckpoint()
+}
+
+// stepCheckpointConcurrent (C02): like stepCheckpoint, but senders that already sent their barrier
+// try to deliver their next event concurrently. They must park in alignment (verif hook tells the
+// scheduler, no quiet period needed) and their events must reach the handler only after the
+// checkpoint has been taken.
+func (e *scriptEnv) stepCheckpointConcurrent() {
+	if len(e.senders) < 2 {
+		e.stepCheckpoint()
+		return
+	}
+	e.ckptID += uint64(1 + e.r.Intn(2))
+	id := e.ckptID
+	order := lib.Shuffled(e.r, e.senders)
+	e.logOp("checkpoint %d, barrier order %v, aligned senders keep sending", id, order)
+	type parkedSend struct {
+		s    string
+		ev   ophar.Ev
+		prog ophar.Program
+		wm   int64
+		isWM bool
+		done chan error
+	}
+	var parked []*parkedSend
+	wmMode := e.r.Intn(4) == 0 // either one aligned sender tries a watermark, or several try keyed events
+	for i, s := range order {
+		for k := e.r.Intn(3); k > 0 && len(e.freeSenders()) > 0; k-- {
+			if e.r.Intn(3) == 0 {
+				e.stepWatermark()
+			} else {
+				e.stepKeyed()
+			}
+		}
+		last := i == len(order)-1
+		e.logOp("%s: barrier(%d)", s, id)
+		if last {
+			e.model.BarrierComplete()
+		}
+		if err := e.node.Send(s, ophar.BarrierEvent(id)); err != nil {
+			e.c.Fail("handle-event-error", e.wit(), "HandleEvent(barrier %d from %s): %v", id, s, err)
+		}
+		e.blocked[s] = true
+		if last || e.r.Intn(3) == 0 || (wmMode && len(parked) > 0) {
+			continue
+		}
+		// this aligned sender immediately tries to deliver its next event
+		ps := &parkedSend{s: s, done: make(chan error, 1)}
+		var wev = ophar.WatermarkEvent(0)
+		if wmMode {
+			ps.isWM = true
+			ps.wm = e.model.Vector[s] + int64(1+e.r.Intn(60))*1000
+			wev = ophar.WatermarkEvent(ps.wm)
+			e.logOp("%s: watermark(%d) [sent after its barrier, must wait for the checkpoint]", s, ps.wm)
+		} else {
+			key := lib.Pick(e.r, e.keys)
+			ps.prog = e.genProgram()
+			e.evN++
+			ps.ev = ophar.Ev{Kind: 'K', Key: key, ID: fmt.Sprintf("e%d", e.evN), T: e.model.Vector[s] + int64(e.r.Intn(5000))}
+			wev = ophar.KeyedEvent(key, ps.ev.ID, ps.prog, ps.ev.T)
+			e.logOp("%s: keyed(%q,%s,%s) [sent after its barrier, must wait for the checkpoint]", s, key, ps.ev.ID, fmtProg(ps.prog))
+		}
+		ch := make(chan struct{})
+		e.hookMu.Lock()
+		e.parked[s] = ch
+		e.hookMu.Unlock()
+		go func() { ps.done <- e.node.Op.HandleEvent(context.Background(), s, wev) }()
+		select {
+		case <-ch:
+			e.c.Feat("senders_parked_in_alignment", 1)
+		case err := <-ps.done:
+			e.c.Fail("post-barrier-event-not-held", e.wit(), "sender %s delivered an event after its barrier %d and HandleEvent returned (%v) although %d barrier(s) are still missing: the event was accepted before checkpoint %d was taken", s, id, err, len(order)-1-i, id)
+		case <-time.After(ophar.Watchdog):
+			e.c.Inconclusive("sender %s neither parked nor returned within the watchdog", s)
+		}
+		parked = append(parked, ps)
+	}
+	// the last barrier's HandleEvent has returned: checkpoint taken and acknowledged. Released senders finish now.
+	acks := e.job.Acks()
+	if len(acks) == 0 || acks[len(acks)-1].CheckpointID != id {
+		e.c.Fail("checkpoint-not-acknowledged", e.wit(), "all barriers of checkpoint %d were delivered and handled but the job saw no acknowledgement for it (acks: %v)", id, acks)
+	}
+	a := acks[len(acks)-1]
+	if a.HandlerCalls != len(e.model.Batches) {
+		e.c.Fail("cut-position", e.wit(), "checkpoint %d was acknowledged after %d handler invocations, the barrier cut is after %d: events delivered after a sender's barrier were applied before the checkpoint (or pre-barrier events were not)", id, a.HandlerCalls, len(e.model.Batches))
+	}
+	for _, ps := range parked {
+		select {
+		case err := <-ps.done:
+			if err != nil {
+				e.c.Fail("handle-event-error", e.wit(), "HandleEvent of released sender %s: %v", ps.s, err)
+			}
+		case <-time.After(ophar.Watchdog):
+			e.c.Inconclusive("released sender %s did not return within the watchdog", ps.s)
+		}
+	}
+	e.blocked = map[string]bool{}
+	e.lastAck = &a
+	// the cut: state and timers as of the barrier flush (the released events are not in it)
+	e.cutShadow = e.ackShadow
+	e.cutTimers = e.model.TimersSnapshot()
+	// now the released events take effect, in whatever order they got through
+	var evs []ophar.Ev
+	var progs []ophar.Program
+	for _, ps := range parked {
+		if !ps.isWM {
+			evs = append(evs, ps.ev)
+			progs = append(progs, ps.prog)
+		}
+	}
+	for _, ps := range parked {
+		if ps.isWM {
+			e.model.Watermark(ps.s, ps.wm)
+		}
+	}
+	if len(evs) > 0 {
+		e.model.KeyedUnordered(evs, progs)
+	}
+	e.sync()
+	e.c.Feat("checkpoints", 1)
+	e.c.Feat("concurrent_checkpoints", 1)
+	e.verifyCheckpoint(a)
 }
